@@ -19,7 +19,7 @@ func (c16) ID() string { return "C16" }
 func (c16) Meta(tier string) engine.Meta {
 	return engine.Meta{
 		Level: "model_checking",
-		Rule: "(a) for EVERY documented overload (polymorphic ones instantiated over 5 element types / 2 map shapes) and EVERY parameter position, the call with an optional-typed argument maybe[T] in that position — as a variable (present and absent), as an object field, as a list element and as a map value — all other arguments ordinary; (b) 112 direct uses of optionals (member / subscript / operators / conditions / nesting / get with right and wrong defaults; maps, lists and objects of optionals mixed with the same containers of plain values under if / list / map / get / == / union); (c) containers (slices, maps, nested) of structs whose pointer field is present in some elements and absent in others — inconsistent data that must be refused, never evaluated with an absent value standing for a number — and one Callable invoked with a present and then an absent pointer of the same Go type; (d) all well-typed programs of depth <= 2 (one nested operand) over host structs whose pointer, slice and map fields are nil / non-nil, tagged `,maybe` and untagged (16 environments; the grammar follows the types each environment really has; 4 of them also with blank-padded, mixed-case struct tags). Oracle: compile-time acceptance equals the reference checker's (an optional is accepted only by a bare type variable or by get(maybe[a], a)); get yields the payload when present and the default otherwise; no accepted program fails at run time on any back end except where the reference predicts a documented partial-operation failure. non-trivial = every case",
+		Rule: "(a) for EVERY documented overload (polymorphic ones instantiated over 5 element types / 2 map shapes) and EVERY parameter position, the call with an optional-typed argument maybe[T] in that position — as a variable (present and absent), as an object field, as a list element and as a map value — all other arguments ordinary; (b) 168 direct uses of optionals (every kind of optional, present and absent, rendered / hashed through union / intersect / diff / string / list equality / map keys; member / subscript / operators / conditions / nesting / get with right and wrong defaults; maps, lists and objects of optionals mixed with the same containers of plain values under if / list / map / get / == / union); (c) containers (slices, maps, nested) of structs whose pointer field is present in some elements and absent in others — inconsistent data that must be refused, never evaluated with an absent value standing for a number — and one Callable invoked with a present and then an absent pointer of the same Go type; (d) all well-typed programs of depth <= 2 (one nested operand) over host structs whose pointer, slice and map fields are nil / non-nil, tagged `,maybe` and untagged (16 environments; the grammar follows the types each environment really has; 4 of them also with blank-padded, mixed-case struct tags). Oracle: compile-time acceptance equals the reference checker's (an optional is accepted only by a bare type variable or by get(maybe[a], a)); get yields the payload when present and the default otherwise; no accepted program fails at run time on any back end except where the reference predicts a documented partial-operation failure. non-trivial = every case",
 		Bound: "built-in arity <= 3; depth 2; 16 host environments",
 		Assumptions: []string{"reference typing rules of C05"},
 	}
@@ -143,6 +143,14 @@ func (c16) Generate(tier string, yield func(*engine.Case) bool) {
 				progs = append(progs, use(gen.CallT("if", gen.BoolT(false), x, y)), use(gen.SubT(gen.ListT(x, y), gen.NumT(1))), use(get(gen.ListT(x), gen.NumT(3), y)),
 					gen.Infix("==", x, y), use(gen.SubT(gen.MapT(gen.StrT("p"), x, gen.StrT("q"), y), gen.StrT("q"))), gen.CallT("union", gen.ListT(x), gen.ListT(y)))
 			}
+		}
+		// every kind of optional (present and absent) where a bare type variable takes it and the value is
+		// rendered / hashed: set functions, string(), list equality, map keys — the absence must not fail
+		for _, m := range []string{"mn", "ms", "mbo", "mo", "ml", "mm", "mmn"} {
+			l := gen.ListT(v(m))
+			progs = append(progs, gen.CallT("len", gen.CallT("union", l, l)), gen.CallT("len", gen.CallT("intersect", l, l)), gen.CallT("len", gen.CallT("diff", l, l)),
+				gen.CallT("union", l, gen.ListT(v(m), v(m))), gen.Infix("==", gen.CallT("string", v(m)), gen.CallT("string", v(m))), gen.Infix("==", gen.CallT("string", l), gen.CallT("string", l)),
+				gen.Infix("==", l, l), gen.CallT("len", gen.MapT(v(m), gen.NumT(1))))
 		}
 		for _, p := range progs {
 			emit(progCase("direct-use", p, env, fmt.Sprintf("present=%v", present)))
